@@ -59,7 +59,7 @@ def enumerate_cases(tier):
 def _case(draw, focus, tier="quick"):
     q = draw(st.sampled_from([0.01, 0.01, None]))
     n = draw(st.integers(1, 3))
-    names = ["Alpha", "Beta plate ", " Gamma_3"]
+    names = ["Alpha 70%", "Beta plate ", " Gamma_3"]
     labs = []
     for i in range(n):
         kind = draw(st.sampled_from(["plate", "trough"])) if i == 0 else draw(st.sampled_from(["plate", "plate", "trough"]))
@@ -361,4 +361,9 @@ def check_case(case) -> Obs:
         if obs.violations:
             break
         obs.nontrivial = mixes >= 2 and multi >= 1
+    _msg = world.templates_changed()
+    if _msg:
+        obs.bad("C05/untouched-object-changed", _msg)
+    if world.templates:
+        obs.cls("cloned-labware")
     return obs
